@@ -4,7 +4,7 @@ whenever the same template file is named by another spelling of its path."""
 import os, tempfile
 from mako.template import Template
 
-d = tempfile.mkdtemp(dir="/tmp/hunt_c15_out")
+d = tempfile.mkdtemp()
 src = os.path.join(d, "t.html"); mods = os.path.join(d, "mods")
 open(src, "w").write("hello"); os.utime(src, (1_600_000_000,) * 2)
 os.chdir(d)
